@@ -1066,7 +1066,7 @@ func addExtras(rt *rapid.T, p *idl.Program) {
 	}
 	// an identifier inside a struct literal whose struct lives in an included file, where that file has a
 	// constant of the same name: the identifier denotes the constant of the file that writes the literal
-	if rapid.IntRange(0, 2).Draw(rt, "xshadow") == 0 {
+	if rapid.IntRange(0, 1).Draw(rt, "xshadow") == 0 {
 		type cand struct {
 			st *idl.Def
 			fd *idl.Field
@@ -1082,7 +1082,7 @@ func addExtras(rt *rapid.T, p *idl.Program) {
 				}
 				for _, fd := range d.Fields {
 					switch fd.Type.Base {
-					case "i16", "i32", "i64", "string":
+					case "byte", "i8", "i16", "i32", "i64", "double", "string", "binary":
 						cands = append(cands, cand{d, fd})
 					}
 				}
@@ -1094,7 +1094,7 @@ func addExtras(rt *rapid.T, p *idl.Program) {
 			} else {
 				c := rapid.SampledFrom(cands).Draw(rt, "xshadowfield")
 				mk := func(n int64) *idl.Value {
-					if c.fd.Type.Base == "string" {
+					if c.fd.Type.Base == "string" || c.fd.Type.Base == "binary" {
 						return &idl.Value{Kind: idl.VLit, Lit: idl.PlainLit(fmt.Sprintf("s%d", n))}
 					}
 					return &idl.Value{Kind: idl.VInt, Int: n}
